@@ -14,8 +14,8 @@ func init() { Registry["C16"] = C16 }
 
 // runPair runs one family member under two configurations and relates the (single-world) outputs.
 func runPair(c *core.Ctx, name string, root *fam.Spec, a, b gen.Config, rel func(fa, fb *fam.FileModel) []fam.Issue) {
-	wa, ca := fam.Run(c.Prog, a, root, 64, nil)
-	wb, cb := fam.Run(c.Prog, b, root, 64, nil)
+	wa, ca := fam.Run(c.Prog, a, root, 512, nil)
+	wb, cb := fam.Run(c.Prog, b, root, 512, nil)
 	key := name + " " + fam.CfgString(a) + " ~ " + fam.CfgString(b)
 	c.Counts["pairs"]++
 	if !ca || !cb {
